@@ -1893,7 +1893,7 @@ func Main(prop string) {
 		add("server-inproc/guest+plain/d3", "server-inproc", sel("guest/none", "plain/none+tls"), 3, false, 0, -1)
 		add("server-inproc/all/d4", "server-inproc", all, 4, false, -1, 0)
 		add("server-ws/guest+plain/d3", "server-ws", sel("guest/none", "plain/none+tls"), 3, false, 0, -1)
-		add("server-ws/all/d4", "server-ws", all, 4, false, -1, 0)
+		add("server-ws/all/d3", "server-ws", all, 3, false, -1, 0)
 	default: // C03, C07
 		if prop == "C03" {
 			scs = append(scs, harness.Scenario{Name: "builders/handshake", Opt: opt, Quick: 0, Thorough: 0, Body: builderPairBody, Final: builderPairFinal})
@@ -1907,7 +1907,7 @@ func Main(prop string) {
 		add("server-inproc/guest+plain/d3", "server-inproc", sel("guest/none", "plain/none+tls"), 3, false, 0, -1)
 		add("server-inproc/all/d4", "server-inproc", all, 4, false, -1, 0)
 		add("server-ws/guest+plain/d3", "server-ws", sel("guest/none", "plain/none+tls"), 3, false, 0, -1)
-		add("server-ws/all/d4", "server-ws", all, 4, false, -1, 0)
+		add("server-ws/all/d3", "server-ws", all, 3, false, -1, 0)
 	}
 	harness.Main(harness.Check{
 		Property:  prop,
